@@ -161,7 +161,7 @@ func (e *env) keygenSection() {
 		mgr := keyset.NewManager()
 		seenKeys := map[string]bool{}
 		for _, route := range routes {
-			reps := hlib.N(1, 4)
+			reps := hlib.N(2, 6)
 			for rep := 0; rep < reps; rep++ {
 				withID := true
 				// gen runs the route once and returns the new key and its id
@@ -397,7 +397,7 @@ func (e *env) idSection() {
 	o := e.o
 	rng := e.rng("ids")
 	tpls := []*tinkpb.KeyTemplate{aead.AES128GCMKeyTemplate(), mac.HMACSHA256Tag128KeyTemplate(), aead.AES256GCMNoPrefixKeyTemplate(), aead.ChaCha20Poly1305KeyTemplate()}
-	for mI := 0; mI < hlib.N(6, 60); mI++ {
+	for mI := 0; mI < hlib.N(20, 150); mI++ {
 		o.Case()
 		m := keyset.NewManager()
 		handed := map[uint32]bool{}
